@@ -74,3 +74,14 @@ ENTRY.setdefault("lean_props_extra", []).append(_pp.EXTRA_LEAN)
 ENTRY["trusted_base"] = ENTRY["trusted_base"] + _pp.TRUSTED_BASE
 ENTRY["assumptions"] = ENTRY["assumptions"] + _pp.ASSUMPTIONS
 ENTRY["level_text"] += " Fourth session: " + _pp.LEVEL_TEXT
+
+# Fifth session: the TIMED semantics with members that prepared in earlier rounds (the state a leader crash halfway through
+# a broadcast leaves behind) — the ROUND-CHANGE stage of the good round over every timed execution, the silent round at full
+# strength, the rotation up to the first running leader's justified proposal: Proofs/QbftTimedPrepared.lean,
+# Props/C04TimedPrepared.lean. PARTIAL: the remaining three message delays of the good round are proved only for silent
+# earlier rounds (C04Timed) and at the phased level (C04Prepared).
+from vlib import snippet_C04timedprepared as _tp
+ENTRY.setdefault("lean_props_extra", []).append(_tp.EXTRA_LEAN)
+ENTRY["trusted_base"] = ENTRY["trusted_base"] + _tp.TRUSTED_BASE
+ENTRY["assumptions"] = ENTRY["assumptions"] + _tp.ASSUMPTIONS
+ENTRY["level_text"] += " Fifth session: " + _tp.LEVEL_TEXT
